@@ -15,6 +15,7 @@ mod c_boxp;
 mod c_asm;
 mod c_time;
 mod c_year;
+mod c_fixed;
 
 use std::io::Write;
 
@@ -94,6 +95,7 @@ fn main() {
         "boxp" => if replay { replay_loop(&mut out, c_boxp::replay_line) } else { c_boxp::run(&opts, &mut out) },
         "asm" => if replay { replay_loop(&mut out, c_asm::replay_line) } else { c_asm::run(&opts, &mut out) },
         "time" => if replay { replay_loop(&mut out, c_time::replay_line) } else { c_time::run(&opts, &mut out) },
+        "fixed" => if replay { replay_loop(&mut out, c_fixed::replay_line) } else { c_fixed::run(&opts, &mut out) },
         "year" => if replay { replay_loop(&mut out, c_year::replay_line) } else { c_year::run(&opts, &mut out) },
         "path-oracle" => c_path::oracle(&opts, &mut out),
         _ => {
